@@ -35,3 +35,7 @@ pub mod session_builder;
 pub use crate::frame::Compression;
 
 pub use crate::network::{PoolSize, WriteCoalescingDelay};
+
+#[cfg(scylla_verif)]
+#[allow(missing_docs)]
+pub use crate::network::verif_streams;
